@@ -36,6 +36,26 @@ CONST_FNS = {"from_f64", "one", "max_intensity", "full_rotation", "half_rotation
 # and a digest]) -> (reason, [shallow keys of the sites it covers: the same expression with locals left as names]).  Confirmed by reading; keys
 # regenerated mechanically whenever the normal form changes.
 TABLE = {
+    ("FromColorUnclamped<cam16::ucs_jmh::Cam16UcsJmh<T>> for cam16::partial::cam16_jmh::Cam16Jmh<T>>::from_color_unclamped", "(- (from_f64(0.007) * val.lightness) + from_f64(1.7))"):
+        ("1.7 - 0.007 J' with J' in [0, 100] (documented range of the UCS lightness): >= 1.0",
+         ["(- (from_f64(0.007) * val.lightness) + from_f64(1.7))"]),
+    ("<cam16::ucs_jmh::Cam16UcsJmh<T> as FromColorUnclamped<cam16::partial::cam16_jmh::Cam16Jmh<T>>>", "(+ (from_f64(0.007) * val.lightness) + one())"):
+        ("1 + 0.007 J with J >= 0: >= 1",
+         ["(+ (from_f64(0.007) * val.lightness) + one())"]),
+    ("chromatic_adaptation::diagonal_matrix", "input_wp.with_meta()"):
+        ("component-wise quotient of two white points in LMS: cone responses of a white point are positive constants",
+         ["input_wp.with_meta()"]),
+    ("relative_contrast::contrast_ratio", "(+ from_f64(0.05) + luma2)"):
+        ("0.05 + relative luminance, luminance >= 0", ["(+ from_f64(0.05) + luma2)"]),
+    ("relative_contrast::contrast_ratio", "(+ from_f64(0.05) + luma1)"):
+        ("0.05 + relative luminance, luminance >= 0", ["(+ from_f64(0.05) + luma1)"]),
+    ("<u8 as stimulus::IntoStimulus<f32>>::into_stimulus", "(+ from_bits((+ def + from(def))) - from_bits(def))"):
+        ("difference of two float constants built from bit patterns (2^23 + 255 and 2^23): 255, non-zero", ["(- from_bits(def) + from_bits(max_u))"]),
+    ("<u8 as stimulus::IntoStimulus<f64>>::into_stimulus", "(+ from_bits((+ def + from(def))) - from_bits(def))"):
+        ("difference of two float constants built from bit patterns: 255, non-zero", ["(- from_bits(def) + from_bits(max_u))"]),
+    ("matrix::matrix_inverse", "det"):
+        ("guarded: `if !det.is_valid_divisor() { panic!(..) }` two statements above (det is reassigned afterwards, which hides the guard from "
+         "the dominance rule); that the built-in matrices are invertible is C14's MATRIX rule", ["det"]),
     ("blend::blend::dodge_blend", "(+ one() - src)"):
         ("arm reached only when src < 1 (previous arm returns for src >= 1): divisor > 0",
          ["(+ one() - src)"]),
@@ -826,15 +846,25 @@ def fn_key(b):
     return p
 
 
+# files whose divisions are not conversions / operators on colours, each with its reason (everything else under palette/src is scanned: a
+# division added in *any* other file is audited -- the list above is kept for the floors only)
+NOT_SCANNED = {
+    "palette/src/named/codegen.rs": "generated constant table",
+    "palette/src/encoding/lut/codegen.rs": "generated lookup tables",
+}
+
+
 def sites(F):
     for b in F.bodies:
-        if b["file"] not in ANCHORED:
+        if b["file"] in NOT_SCANNED or not b["file"].startswith("palette/src/"):
             continue
         if "::test" in b["path"] or "::tests::" in b["path"] or b["path"].endswith("::test"):
             continue
         im = b.get("_impl")
         if im is not None and str(im.get("trait") or "").startswith(("std::ops::Div", "std::ops::Rem", "core::ops::Div", "core::ops::Rem")):
             continue  # `colour / x`: the quotient the caller asked for; dividing by a zero component is not a conversion defect
+        if im is not None and str(im.get("trait") or "").endswith("num::Recip"):
+            continue  # the definition of `recip` itself (1 / self), like Div: its call sites are the audited divisions
         flow = mkflow(F, b)
         for n, parents in facts.walk(b["body"]):
             div = None
